@@ -20,7 +20,9 @@ LEVEL = 'fault_enumeration'
 ENGINE = 'E3 failing-cell-subset enumeration against a policy reference model'
 RULE = ('for each call form: all tables of n rows (two fields) x every subset of the 2n cells marked as making '
         'the user function raise (rowmapmany: every vector over {yield 0/1/2 rows, yield 0/1/2 rows then raise}) '
-        'x where-selection subsets (where forms) x policy in {False, True, "inline"} x mode in {argument; '
+        '(lazy-row forms: rowmap mappers returning a generator expression / map object / iterator object whose '
+        'materialisation raises at each cell position, rowmapmany yielding such rows, failing at cell position '
+        '0/1/2 after 0/1/2 good rows) x where-selection subsets (where forms) x policy in {False, True, "inline"} x mode in {argument; '
         'argument with config set to a different policy; argument omitted with config set; failonerror=None with '
         'config set; config set only while the view is constructed} x errorvalue in {omitted, None, "ERR"} '
         '(cell-level forms).  The pass is driven item by item: rows delivered before an exception, the '
@@ -110,6 +112,17 @@ BUILD = {
     'fieldmap()[p] = (a, f); [q] = b': _suffix_fieldmap,
     'rowmap(f)': lambda t, kw, sel: etl.rowmap(t, ref.rowmapper, header=('x', 'y', 'z'), **kw),
     'rowmap(natural)': lambda t, kw, sel: etl.rowmap(t, ref.rowmapper_natural, header=('x', 'y'), **kw),
+    'rowmap(f -> generator expression)': lambda t, kw, sel: etl.rowmap(
+        t, ref.lazy_genexpr_mapper, header=('x', 'y'), **kw),
+    'rowmap(f -> map object)': lambda t, kw, sel: etl.rowmap(t, ref.lazy_map_mapper, header=('x', 'y'), **kw),
+    'rowmap(f -> iterator object)': lambda t, kw, sel: etl.rowmap(
+        t, ref.lazy_iter_mapper, header=('x', 'y'), **kw),
+    'rowmap(f -> map(int, row))': lambda t, kw, sel: etl.rowmap(
+        t, ref.lazy_natural_mapper, header=('x', 'y'), **kw),
+    'rowmapmany(generator of lazy rows)': lambda t, kw, sel: etl.rowmapmany(
+        t, ref.lazy_rowgenerator, header=('x', 'j', 'y'), **kw),
+    'rowmapmany(list of lazy rows)': lambda t, kw, sel: etl.rowmapmany(
+        t, ref.lazy_rowlister, header=('x', 'j', 'y'), **kw),
     'rowmapmany(generator)': lambda t, kw, sel: etl.rowmapmany(t, ref.rowgenerator, header=('x', 'j', 'y'), **kw),
     'rowmapmany(list function)': lambda t, kw, sel: etl.rowmapmany(t, ref.rowlister, header=('x', 'j', 'y'), **kw),
 }
@@ -256,9 +269,12 @@ def tables_of(form, n):
     """Every input of size n for the form: (table, selected or None, n_fail, n_ok)."""
     spec = ref.FORMS[form]
     style = spec['style']
-    if style in ('many', 'many-call'):
+    if style in ('many', 'many-call', 'many-lazy'):
         if style == 'many':
             alphabet = [('ok', 0), ('ok', 1), ('ok', 2), ('fail', 0), ('fail', 1), ('fail', 2)]
+        elif style == 'many-lazy':
+            alphabet = [('ok', 0), ('ok', 1), ('ok', 2)] + \
+                       [('fail', (k, p)) for k in (0, 1, 2) for p in (0, 1, 2)]
         else:
             alphabet = [('ok', 0), ('ok', 1), ('ok', 2), ('fail', 0)]
         vecs = sorted(itertools.product(alphabet, repeat=n),
@@ -281,10 +297,12 @@ def items(tier, seed):
     out = []
     for form in spaces.rotate(sorted(BUILD), seed):
         spec = ref.FORMS[form]
-        if spec['style'] in ('many', 'many-call'):
+        if spec['style'] in ('many', 'many-call', 'many-lazy'):
             nmax = 5 if tier == 'thorough' else 4
             if spec['style'] == 'many-call':
                 nmax += 1
+            if spec['style'] == 'many-lazy':
+                nmax -= 1           # 12 behaviours per row
         elif spec.get('where'):
             nmax = _nmax(tier) - 1
         else:
